@@ -435,6 +435,10 @@ func runRedisWait(ctx *Ctx) {
 	}
 	ctx.R.Nontrivial("directed")
 	for cse := 0; cse < cases; cse++ {
+		if ctx.R.Enough() {
+			ctx.R.Comment("several violations recorded already: the remaining cases are skipped")
+			break
+		}
 		runRedisWaitCase(ctx, r.Range(1, 3), r.Range(8, 30), []string{"put a 0"})
 		ctx.R.Nontrivial(fmt.Sprintf("random %d", cse))
 	}
